@@ -432,3 +432,228 @@ def exec_schedule(job):
         if r is not None:
             harness.shutdown(r.h)
     return out
+
+
+# ------------------------------------------------------------------------------ schedules
+ACTIVE_SETS = [
+    ['F1', 'F2', 'A2'], ['F3', 'F5', 'K1'], ['F4', 'F6', 'A3'], ['F5', 'A2'], ['F5', 'F6'], ['A1', 'A2', 'K1'],
+    ['F1', 'A3'], ['F2', 'F5'], ['A2'], ['F5'],
+]
+
+
+def handmade():
+    E = lambda d: {'op': 'enable', 'd': d}
+    X = lambda d: {'op': 'disable', 'd': d}
+    H = lambda d, n=2: {'op': 'hit', 'd': d, 'n': n}
+    O = lambda op, **kw: dict(op=op, **kw)
+    A = {'op': 'adv'}
+    out = []
+    for hs in (False, True):
+        rs = [O('relstart')] if hs else []
+        for he in (False, True):
+            re_ = [O('relend')] if he else []
+            for a in ('A2', 'A3'):
+                c = dict(active=[a, 'F1'], holdS=hs, holdE=he)
+                # timeout protection has removed the rule; the ball ends / tilt / service before the re-enable time
+                out.append((c, [O('start')] + rs + [H(a), A, O('drain')] + [A] * 4))
+                out.append((c, [O('start')] + rs + [H(a, 1), H(a, 1), O('tilt'), A, A, A, A, O('tiltdrain')] + re_ + [A]))
+                out.append((c, [O('start')] + rs + [H(a), O('service'), A, A, A, A, O('svcexit'), A]))
+                out.append((c, [O('start')] + rs + [H(a), X(a), A, A, A, A, E(a), H(a, 1), A, H(a), E(a), H(a, 1), A, A, A, A]))
+                out.append((c, [O('start')] + rs + [H(a), O('endgame')] + re_ + [A] * 4))
+            c = dict(active=['F1', 'F5', 'A2'], holdS=hs, holdE=he)
+            if hs:
+                # tilt while ball_starting is held: the ball must end as soon as it has started
+                out.append((c, [O('start'), O('tilt'), A, O('relstart')] + re_ + [A, O('relstart'), A, O('drain')] + re_))
+                out.append((c, [O('start'), O('relstart'), O('drain')] + re_ + [O('tilt'), O('relstart')] + re_ + [A]))
+            # repeated enable / disable, software flips and ball search around the end of the ball
+            out.append((c, [E('F1'), E('F1'), O('start')] + rs + [E('F1'), O('flip', d='F1'), O('search', d='F1'), O('drain')]
+                        + re_ + [A, A, A, X('F1'), X('F1')]))
+            out.append((c, [O('start')] + rs + [O('search', d='F5'), A, X('F5'), E('F5'), O('flip', d='F5'), A, A, O('tilt'),
+                                                 O('tiltdrain')] + re_))
+            # software EOS repulse, then the flipper is disabled while the button is still held
+            rep = [O('btn', d='F5', st=1), O('eos', d='F5', st=1), A, A, O('eos', d='F5', st=0)]
+            out.append((c, [O('start')] + rs + rep + [X('F5'), O('btn', d='F5', st=0), A]))
+            out.append((c, [O('start')] + rs + rep + [O('drain')] + re_ + [A]))
+            if he:
+                # tilt while ball_ending is held
+                out.append((c, [O('start')] + rs + [O('drain'), O('tilt'), O('relend')] + rs + [A, O('tilt'), O('drain'), O('relend')]))
+    return out
+
+
+def mutate(sched, rnd):
+    """Time has to pass for timers to matter: sprinkle extra units of time over a generated schedule."""
+    out = []
+    for a in sched:
+        out.append(a)
+        if a['op'] != 'init' and rnd.random() < 0.22:
+            out += [{'op': 'adv'}] * rnd.choice([1, 1, 2, 3])
+    return out
+
+
+MC_RUNS_QUICK = [(['F1', 'A2'], 4, 4, 1), (['F5'], 6, 4, 1), (['F2', 'K1'], 4, 3, 1), (['F6', 'A3'], 4, 3, 1)]
+MC_RUNS_THOROUGH = [(['F1', 'A2'], 5, 5, 2), (['F5'], 7, 5, 1), (['F2', 'K1'], 5, 4, 1), (['F6', 'A3'], 5, 4, 1),
+                    (['F3', 'F4'], 5, 3, 1), (['F5', 'A2'], 5, 4, 1), (['A1', 'A3', 'K1'], 5, 4, 1)]
+MONITORS = ['RulesExact', 'InstallOnce', 'HandlersExact', 'SafeWhenNotInPlay', 'NoCoilLeftOn', 'NoStrayReenable']
+DEVIATIONS = {
+    'RepulseLeftOn': ('C10:flipper:repulse-coil-left-energised-after-disable',
+                      'a flipper coil energised by the software EOS repulse (platform_controller.SoftwareEosRepulseManager) stays '
+                      'energised when the flipper is disabled (ball end, tilt, service, disable event): Flipper.disable() only '
+                      'releases coils when _sw_flipped, and the manager that would switch the coil off on button release is stopped'),
+    'TiltCarriesOver': ('C10:tilt-during-ball-ending:next-ball-live-while-tilted',
+                        'a tilt while the ball_ending queue event is held sets game.tilted, which is not cleared when that ball '
+                        'has ended: the next ball starts and all flipper/autofire rules are installed while game.tilted is set '
+                        '(further tilts are ignored for that ball)'),
+}
+
+
+def run(ctx):
+    mdir = write_machine(ctx.scratch)
+    wd = tlc.prepare(ctx.scratch, 'HwRules', 'hwrules')
+    # 1. design check: the model satisfies the statement for every interleaving within the bounds
+    for k, (devs, maxops, maxtime, maxgames) in enumerate(MC_RUNS_QUICK if ctx.quick else MC_RUNS_THOROUGH):
+        with open(wd + '/HwRulesMC.tla', 'w') as f:
+            f.write(mc_module(devs, all_cfgs([devs])))
+        with open(wd + '/MC.cfg', 'w') as f:
+            f.write(tlc_cfg('Spec', maxops, maxtime, maxgames))
+        r = tlc.expect_ok(tlc.check(wd, 'HwRulesMC', 'MC.cfg', workers=8, timeout=1500), 'HwRules design check %s' % devs)
+        ctx.add_tlc('HwRulesMC %s' % '+'.join(devs), r, {'devices': devs, 'MaxOps': maxops, 'MaxTime': maxtime,
+                                                        'MaxGames': maxgames, 'holdS x holdE': 4})
+    ctx.coverage['monitors'] += MONITORS
+    # 2. schedules: random walks of the model over the whole machine + hand-written ones
+    with open(wd + '/HwRulesGen.tla', 'w') as f:
+        f.write(mc_module(IDS, all_cfgs(ACTIVE_SETS), name='HwRulesGen'))
+    with open(wd + '/Gen.cfg', 'w') as f:
+        f.write(tlc_cfg('Spec', 40, 30, 2, invs=''))
+    behs, _ = tlc.simulate(wd, 'HwRulesGen', 'Gen.cfg', num=300 if ctx.quick else 3000, depth=36 if ctx.quick else 50, seed=ctx.seed)
+    rnd = random.Random(ctx.seed)
+    jobs = []
+    for b in behs:
+        c = b[0]['cfg']
+        cfg = dict(active=sorted(c['active']), holdS=bool(c['holdS']), holdE=bool(c['holdE']))
+        jobs.append((mdir, cfg, mutate([s['act'] for s in b], rnd), rnd.choice(['event', 'direct', 'mixed']), rnd.randrange(1 << 30)))
+    for cfg, sched in handmade():
+        for via in ('event', 'direct'):
+            jobs.append((mdir, cfg, sched, via, 1))
+    traces = harness.pmap(exec_schedule, jobs, nproc=8, chunk=4, item_timeout=120)
+    ctx.log('schedules executed: %d (%d steps)' % (len(traces), sum(len(t['ev']) for t in traces)))
+    # 3. validation against the model without deviations
+    with open(wd + '/HwRulesTraceMC.tla', 'w') as f:
+        f.write(mc_module(IDS, [], name='HwRulesTraceMC').replace('EXTENDS HwRules\n', 'EXTENDS HwRulesTrace\n'))
+    with open(wd + '/Trace.cfg', 'w') as f:
+        f.write(tlc_cfg('TSpec', 10 ** 6, 10 ** 6, 10 ** 6, invs=INVS + 'INVARIANT Reporter\n'))
+    v = tlc.validate_traces(wd, 'HwRulesTraceMC', 'Trace.cfg', traces)
+    ctx.add_trace_verdict('HwRulesTrace', v, len(traces))
+    ctx.sample({'kind': 'hw-rules-trace', 'cfg': traces[0]['cfg'], 'via': traces[0]['_via'],
+                'trace': [{k: x for k, x in e.items() if k in ('op', 'd', 'n', 'st', 'rules', 'on', 'tilted')} for e in traces[0]['ev'][:8]]})
+    # 4. rejected traces: are they explained by a named code-as-is deviation?
+    explained = {}
+    rej = sorted(v.rejected)
+    for devs in (['RepulseLeftOn'], ['TiltCarriesOver'], ['RepulseLeftOn', 'TiltCarriesOver']):
+        todo = [i for i in rej if i not in explained]
+        if not todo:
+            break
+        name = 'TraceDev_%s.cfg' % '_'.join(devs)
+        with open(wd + '/' + name, 'w') as f:
+            f.write(tlc_cfg('TSpec', 10 ** 6, 10 ** 6, 10 ** 6, invs='INVARIANT Reporter\n', deviations=devs))
+        v2 = tlc.validate_traces(wd, 'HwRulesTraceMC', name, [traces[i] for i in todo], diagnose=False)
+        ctx.add_trace_verdict('HwRulesTrace(Deviations={%s})' % ','.join(devs), v2, 0)
+        for k in v2.accepted:
+            explained[todo[k]] = devs
+    for i, devs in sorted(explained.items()):
+        for dv in devs:
+            sig, what = DEVIATIONS[dv]
+            ctx.violation(sig, what, {'job': list(jobs[i][1:]), 'trace': traces[i], 'info': v.rejected[i]})
+    for i, info in sorted(v.rejected.items()):
+        if i in explained or info.get('line') is None:
+            continue
+        fe = info.get('failing_event') or {}
+        pe = info.get('prev_event') or {}
+        sig = 'C10:%s:%s' % (fe.get('op', 'end'), classify(fe, pe))
+        ctx.violation(sig, 'execution (requests via %s, cfg %s) not explained by HwRules spec at line %s: %s (prev %s) %s' % (
+            jobs[i][3], jobs[i][1], info.get('line'), brief(fe), brief(pe), traces[i].get('_tb', '')),
+            {'job': list(jobs[i][1:]), 'trace': traces[i], 'info': info})
+    ctx.coverage['ops_executed'] = {}
+    for t in traces:
+        for e in t['ev']:
+            ctx.coverage['ops_executed'][e['op']] = ctx.coverage['ops_executed'].get(e['op'], 0) + 1
+    probe_watch_window(ctx, mdir)
+    ctx.assumptions += [
+        'virtual platform; its rule table (platform.rules) is the hardware; set_delayed_pulse_on_hit_rule is added to the '
+        'platform object by the driver (the virtual platform lacks it) with the same table discipline',
+        'fake-game harness (no ball devices): drain = ball_drain relay event; the tilted ball reaching the drain is delivered '
+        'by calling Tilt._tilted_ball_drain; ball search = the callback each device registered with the playfield',
+        'energised = last software command at the platform driver was enable (hardware-rule activations are not software)',
+        'the autofire watch window is half a time unit, so that only hits at the same instant count together',
+        'service mode entered while a tilt waits for balls, a tilt while the last ball is ending, and games after service '
+        'mode are not driven (tilt-mode handlers left behind would block the next game: outside this property)',
+    ]
+
+
+def brief(e):
+    return {k: x for k, x in e.items() if k not in ('psu',)} if e else e
+
+
+def classify(fe, pe):
+    """Name the statement-level symptom of a rejected step from its observation (for stable signatures)."""
+    if fe.get('op') == 'crash':
+        return 'exception'
+    if any(not c['ok'] for c in fe.get('calls', [])):
+        return 'install-or-clear-on-wrong-key'
+    want = set()
+    for i, on in fe.get('en', {}).items():
+        if on:
+            want |= rules_of(DEV[i])
+    have = {tuple(r) for r in fe.get('rules', [])}
+    if want != have:
+        return 'rules-differ-from-enabled-devices'
+    if not fe.get('game') or fe.get('tilted'):
+        if any(fe['en'][i] for i in IDS if DEV[i]['kind'] != 'kickback') and fe.get('op') in (
+                'adv', 'drain', 'tilt', 'service', 'relstart', 'relend', 'endgame', 'tiltdrain'):
+            return 'enabled-while-not-in-play'
+    if fe.get('on'):
+        return 'coil-energised'
+    return 'model-mismatch'
+
+
+def rules_of(x):
+    k4 = 'pulse_on_hit_and_enable_and_release'
+    if x['kind'] != 'flipper':
+        return {(x['btn'], x['main'], 'delayed_pulse_on_hit' if x['delay'] else 'pulse_on_hit')}
+    out = set()
+    if x['eos']:
+        k = 'pulse_on_hit_and_release_and_disable' if x['dual'] else 'pulse_on_hit_and_enable_and_release_and_disable'
+        out |= {(x['btn'], x['main'], k), (x['eosw'], x['main'], k)}
+    else:
+        out.add((x['btn'], x['main'], 'pulse_on_hit_and_release' if x['dual'] else k4))
+    if x['dual']:
+        out.add((x['btn'], x['hold'], k4))
+    return out
+
+
+def probe_watch_window(ctx, mdir):
+    """Not part of the statement: does timeout protection count hits that are inside timeout_watch_time but not simultaneous?"""
+    h = harness.boot(None, machine_dir=mdir, fake_game=True)
+    try:
+        a = h.machine.autofire_coils['A2']
+        a._timeout_watch_time = None
+        a.config['timeout_watch_time'] = 1000       # 1s, as configured by `timeout_watch_time: 1s`
+        a._timeout_watch_time = a.config['timeout_watch_time'] / 1000       # what _initialize() computes
+        a.enable()
+        for _ in range(MAX_HITS):
+            h.hit_and_release_switch('s_a2')
+            h.advance_time_and_run(0.01)
+        ctx.notes.append('autofire timeout window probe: timeout_watch_time=1s, max_hits=%d, %d hits 10 ms apart -> rule %s '
+                         '(autofire.py: _initialize divides timeout_watch_time by 1000 and _hit divides by 1000.0 again, so the '
+                         'effective window is timeout_watch_time/1000)' % (
+                             MAX_HITS, MAX_HITS, 'still installed: hits were NOT counted together' if a._enabled else 'removed'))
+    finally:
+        harness.shutdown(h)
+
+
+def replay(ctx, data):
+    d = data['replay']
+    mdir = write_machine(ctx.scratch)
+    tr = exec_schedule((mdir,) + tuple(d['job']))
+    for e in tr['ev']:
+        print(brief(e))
+    print(tr.get('_tb', ''))
